@@ -181,8 +181,10 @@ def check(prop, tier, seed):
                 if part:
                     parts.append(part)
     miri = None
-    if tier == "thorough" and plan["miri"]:
-        miri = run_miri(seed)
+    if plan["miri"]:
+        # thread schedules of the shared lazily built index: a few in the quick tier, many (plus
+        # the history layer under the interpreter) in the thorough tier
+        miri = run_miri(seed, tier)
         if miri is None:
             harness_error = True
 
@@ -273,9 +275,11 @@ def check(prop, tier, seed):
         "violations": len(violations),
     }
     os.makedirs(EVID, exist_ok=True)
-    with open(os.path.join(EVID, f"{prop}.json"), "w", encoding="utf-8") as fh:
-        json.dump(ev, fh, indent=1, ensure_ascii=False)
-        fh.write("\n")
+    for name in (f"{prop}.json", f"{prop}.{tier}.json"):
+        # <id>.json is what the harness reads; <id>.<tier>.json keeps the latest run of each tier
+        with open(os.path.join(EVID, name), "w", encoding="utf-8") as fh:
+            json.dump(ev, fh, indent=1, ensure_ascii=False)
+            fh.write("\n")
     log(f"RESULT property={prop} tier={tier} evaluations={evaluations} violations={len(violations)} known_findings={len(known_hits)} wall={wall:.1f}s")
     if harness_error:
         return 2
@@ -290,16 +294,18 @@ def check(prop, tier, seed):
 # ---------------------------------------------------------------------------------------------
 # Miri thread layer (C15, thorough tier)
 
-def run_miri(seed):
+def run_miri(seed, tier="thorough"):
     d = os.path.join(ROOT, "miri-threads")
     if not os.path.isdir(d):
         return {"skipped": "miri-threads crate not present"}
-    n_seeds = int(os.environ.get("VERIF_MIRI_SEEDS", "48"))
+    n_seeds = int(os.environ.get("VERIF_MIRI_SEEDS", "48" if tier == "thorough" else "16"))
     env = dict(ENV, MIRIFLAGS=f"-Zmiri-many-seeds=0..{n_seeds} -Zmiri-preemption-rate=0.3 -Zmiri-disable-isolation")
     t0 = time.time()
-    scripts = 6
+    scripts = 12 if tier == "thorough" else 4
     total, viol = 0, []
-    for script in range(scripts):
+    # the quick tier takes the scripts whose texts are non-ASCII (first column computation races)
+    script_ids = list(range(scripts)) if tier == "thorough" else [4, 5, 6, 7][:scripts]
+    for script in script_ids:
         cmd = ["cargo", "+nightly", "miri", "run", "--offline", "--quiet", "--bin", "threads", "--", str(seed), str(script)]
         p = subprocess.run(cmd, cwd=d, env=env, stdout=subprocess.PIPE, stderr=subprocess.PIPE, text=True)
         total += n_seeds
@@ -320,7 +326,7 @@ def run_miri(seed):
     hist_runs = int(os.environ.get("VERIF_MIRI_HIST_RUNS", "150"))
     hist = {}
     env2 = dict(ENV, MIRIFLAGS="-Zmiri-disable-isolation")
-    for config in (0, 1):
+    for config in ((0, 1) if tier == "thorough" else ()):
         cmd = ["cargo", "+nightly", "miri", "run", "--offline", "--quiet", "--bin", "hist", "--", str(seed), str(hist_runs), str(config)]
         p = subprocess.run(cmd, cwd=d, env=env2, stdout=subprocess.PIPE, stderr=subprocess.PIPE, text=True)
         if p.returncode != 0:
